@@ -63,6 +63,9 @@ def tasks(tier):
     # attempt_timeout_s: an attempt that hangs past the timeout, then further attempts
     cfgs.append(dict(base, M=3, attempt_timeout=2, durs=[0, 5, 1], max_unknown=None, deadline=None))
     cfgs.append(dict(base, M=3, budget={"max": 1, "window": 8}, deadline=3))
+    # the operation itself raises the library's own exceptions (a nested policy ran out / a nested
+    # breaker is open) and cancellation-type exceptions
+    cfgs.append(dict(base, M=3, max_unknown=None, alphabet=ALPHA + ["nested", "coe", "kbd"]))
     # async entry points are handed callbacks that return awaitable objects (not coroutines)
     cfgs.append(dict(base, M=3, max_unknown=None, async_awaitables=True))
     for cfg in cfgs:
@@ -73,11 +76,17 @@ def tasks(tier):
         c2 = dict(cfg, handler="call", before_sleep="call", sleeper="call")
         # family 3: no handler, library default sleeper, breaker attached (Policy entries only)
         c3 = dict(cfg, handler="call" if cfg["M"] == 2 else None, sleeper=None,
-                  alphabet=ALPHA + (["kbd", "cancel"] if cfg["M"] == 2 else []),
+                  # library exceptions raised by the operation itself are left out here: how such
+                  # an ending is recorded with the breaker is not defined by the statements (C09
+                  # accepts any single record) and call/execute do differ (observation, DESIGN 11.2)
+                  alphabet=[a for a in cfg["alphabet"] if a not in ("nested", "coe")]
+                  + (["kbd", "cancel"] if cfg["M"] == 2 else []),
                   breaker={"threshold": 1, "window": 8, "recovery": 2, "trip_on": ["T", "U", "P"]})
         c4 = dict(cfg, handler="both", before_sleep="both", sleeper="both")
-        for first in ALPHA:
+        for first in cfg["alphabet"]:
             w = 1 if first in ("ok", "x:P", "abort") else 6
+            if first in ("nested", "coe"):
+                w = 1
             if cfg.get("budget") is None and cfg["M"] == 3:
                 out.append({"family": "agree-both-levels", "cfg": dict(c4, script_prefix=[first]),
                             "entry": REF, "bound": bound, "variants": NO_DECO, "weight": w})
@@ -85,9 +94,10 @@ def tasks(tier):
                         "entry": REF, "bound": bound, "variants": ALL24, "weight": w})
             out.append({"family": "agree-call-level", "cfg": dict(c2, script_prefix=[first]),
                         "entry": REF, "bound": bound, "variants": NO_DECO, "weight": w})
-            out.append({"family": "agree-breaker", "cfg": dict(c3, script_prefix=[first]),
-                        "entry": "Policy.execute", "bound": bound, "variants": POLICY6,
-                        "weight": w // 2 + 1})
+            if first in c3["alphabet"]:
+                out.append({"family": "agree-breaker", "cfg": dict(c3, script_prefix=[first]),
+                            "entry": "Policy.execute", "bound": bound, "variants": POLICY6,
+                            "weight": w // 2 + 1})
     return out
 
 
